@@ -7,7 +7,9 @@
 (* accepted, or it ends in the first offending token.  Broken words         *)
 (* (unterminated quotes and expansions) are appended to viable prefixes     *)
 (* only.  With Mutations = TRUE every accepted string additionally yields   *)
-(* its single-token deletions, duplications, adjacent swaps and insertions, *)
+(* its single-token deletions, duplications, adjacent swaps, insertions and *)
+(* substitutions (also of a fixed list of base programs, one per compound   *)
+(* construct: InitBases),                                                   *)
 (* each classified by ShellRec.                                             *)
 (***************************************************************************)
 EXTENDS ShellRec, Json, SequencesExt
@@ -27,6 +29,7 @@ Viable(t) == ~(Len(t) > 0 /\ IsBroken(t[Len(t)])) /\
                                 \/ (r.cls = "accept" /\ r.n = Len(t) /\ ~Ended(t))
 
 Init == toks = <<>>
+Stutter == FALSE /\ toks' = toks
 Next == /\ Viable(toks)
         /\ Len(toks) < MaxLen
         /\ \/ \E i \in 1..Len(Alpha)  : toks' = Append(toks, Alpha[i])
@@ -71,7 +74,8 @@ Mutants(t) ==
         dup  == {InsertAt(t, i, t[i]) : i \in 1..n}
         swp  == {[t EXCEPT ![i] = t[i + 1], ![i + 1] = t[i]] : i \in 1..(n - 1)}
         ins  == {InsertAt(t, i, Alpha[a]) : i \in 1..(n + 1), a \in 1..Len(Alpha)}
-    IN  (del \cup dup \cup swp \cup ins) \ {t}
+        sub  == {[t EXCEPT ![i] = Alpha[a]] : i \in 1..n, a \in 1..Len(Alpha)}
+    IN  (del \cup dup \cup swp \cup ins \cup sub) \ {t}
 
 Emit == /\ PrintT(<<"CASE", ToJson(CaseOf(toks, "base"))>>)
         /\ (Mutations /\ Rec(toks).cls = "accept" /\ Rec(toks).n = Len(toks) /\ Len(toks) >= 3
